@@ -46,7 +46,7 @@ def gen_tspec(r, collide=True):
         for i, n in enumerate(user):
             short = n.rsplit(".", 1)[-1]
             if r.random() < 0.12:
-                mapping[n] = short + "X"              # no namespace at all
+                mapping[n] = short + "X" + ("" if (short + "X") not in mapping.values() else str(i))   # no namespace at all
             else:
                 mapping[n] = pool[i % len(pool)] + "." + short + ("" if i < len(pool) else "b")
         tspec = rename_types(tspec, mapping)
